@@ -88,30 +88,9 @@ Proof.
   intros i r. exact (proj1 (forallb_forall _ _) H (i, r) (all_sel_pairs_complete i r)).
 Qed.
 
-(** Legacy passkey roles: refuted at full strength, proved on the complement of the class. *)
-Lemma legacy_passkey_roles_refuted : exists i r : sel_params, roles_ok (i, r) = false.
+(** Legacy Passkey Entry roles: the generated [get_pin_code] decision is Table 2.8's, in every cell. *)
+Lemma legacy_passkey_roles : forall i r : sel_params, roles_ok (i, r) = true.
 Proof.
-  exists {| sp_sc := false; sp_oob := false; sp_mitm := true; sp_io := KeyboardDisplay |},
-         {| sp_sc := false; sp_oob := false; sp_mitm := true; sp_io := KeyboardDisplay |}.
-  vm_compute. reflexivity.
-Qed.
-
-Lemma legacy_passkey_roles_partial :
-  forall i r : sel_params, kd_must_input (i, r) = false -> roles_ok (i, r) = true.
-Proof.
-  assert (H : forallb (fun ir => kd_must_input ir || roles_ok ir) all_sel_pairs = true) by (vm_compute; reflexivity).
-  intros i r Hk.
-  pose proof (proj1 (forallb_forall _ _) H (i, r) (all_sel_pairs_complete i r)) as H1.
-  cbv beta in H1. rewrite Hk in H1. exact H1.
-Qed.
-
-(** ... and the class is exactly where the roles are wrong. *)
-Lemma legacy_passkey_roles_class_exact :
-  forall i r : sel_params, roles_ok (i, r) = negb (kd_must_input (i, r)).
-Proof.
-  assert (H : forallb (fun ir => Bool.eqb (roles_ok ir) (negb (kd_must_input ir))) all_sel_pairs = true)
-    by (vm_compute; reflexivity).
-  intros i r.
-  pose proof (proj1 (forallb_forall _ _) H (i, r) (all_sel_pairs_complete i r)) as H1.
-  cbv beta in H1. apply Bool.eqb_prop in H1. exact H1.
+  assert (H : forallb roles_ok all_sel_pairs = true) by (vm_compute; reflexivity).
+  intros i r. exact (proj1 (forallb_forall _ _) H (i, r) (all_sel_pairs_complete i r)).
 Qed.
